@@ -391,7 +391,8 @@ Qed.
 
 (* ------------------------------------------------------------------ *)
 (* publish *)
-Definition no_fault_or_first (f : fault) (n : nat) : Prop := (forall k, fails f k = false) \/ fails f (S n) = true.
+Definition no_fault_or_first (f : fault) (n : nat) : Prop :=
+  (fails f (S n) = false /\ fails f (S (S n)) = false /\ fails f (S (S (S n))) = false) \/ fails f (S n) = true.
 
 Lemma wf_scalar s s' :
   wf_store s -> subs s' = subs s -> t_auth s' = t_auth s -> users s' = users s -> wf_store s'.
@@ -418,8 +419,8 @@ Proof.
   intros [G S] NZ FR RD NF. unfold publish. fold (user_mode c u).
   destruct (is_writer (user_mode c u)) eqn:W; cbn [negb]; [|split; assumption].
   specialize (RD eq_refl). rewrite RD.
-  unfold call. destruct NF as [NF|NF]; [|rewrite NF; cbn [negb]; split; assumption].
-  rewrite !NF. cbn [negb].
+  unfold call. destruct NF as [[N1 [N2 N3]]|NF]; [|rewrite NF; cbn [negb]; split; assumption].
+  rewrite N1, N2, ?N3. cbn [negb].
   rewrite msg_save_fresh by (intros m Hm; cbn in Hm; specialize (FR m Hm); lia).
   pose proof (get_pud_has _ _ _ RD) as L. rewrite L. cbn [h_st h_ca andb].
   set (seq := c_lastid c + 1). set (p := get_pud c u) in *.
@@ -472,8 +473,8 @@ Proof.
   intros [G S] NZ NF. unfold del_msg.
   destruct (negb (is_deleter (user_mode c u)) && negb (is_reader (user_mode c u))) eqn:M; [split; assumption|].
   destruct (dr (c_lastid c) req) as [ranges|]; [|split; assumption].
-  unfold call. destruct NF as [NF|NF]; [|rewrite NF; cbn [negb]; split; assumption].
-  rewrite !NF. cbn [negb h_st h_ca].
+  unfold call. destruct NF as [[N1 [N2 N3]]|NF]; [|rewrite NF; cbn [negb]; split; assumption].
+  rewrite N1, N2, N3. cbn [negb h_st h_ca].
   set (delid := c_delid c + 1).
   assert (alookup u (c_users c) = Some (get_pud c u)) as L.
   { apply andb_false_iff in M. destruct M as [M|M]; apply negb_false_iff in M; eapply get_pud_has; exact M. }
